@@ -10,7 +10,7 @@ COQ_RUN = "run10"
 COQ_CASE_TYPE = "case10"
 SHARD = 60
 CASE_TIMEOUT = 8        # a call that does not return within 8 s counts as non-terminating (ordinary cases: milliseconds)
-RULE = ("pieces whose half split lands exactly on one of their own end nodes (3(p1+p2)+p3 = 7 p0 and mirror images, closed pieces with opposite handles); node lists of 1..6 nodes: control points on a quarter-integer grid in [-64, 64] (the float run is then exact and is compared node for node with the "
+RULE = ("every path is flattened twice in the same process from fresh copies (second result judged, first must stay intact); pieces whose half split lands exactly on one of their own end nodes (3(p1+p2)+p3 = 7 p0 and mirror images, closed pieces with opposite handles); node lists of 1..6 nodes: control points on a quarter-integer grid in [-64, 64] (the float run is then exact and is compared node for node with the "
         "exact model), and general floats (judged by the refinement checker with eps = 1e-9 x scale): loops, cusps, coincident endpoints, already-flat pieces, "
         "handles overshooting the chord; small shapes (handles of a few 2^-11) translated to +-2^20 / 10^6 with flatness 2^-13..2^-10; flatness from 1/4 to 64; non-trivial = at least one piece was split")
 TRUSTED = ["on the quarter-integer grid every float operation of the run is exact (values stay below 2^53 ulp) so float = rational",
@@ -96,9 +96,16 @@ def generate(rng, tier):
     return cases
 
 def run_impl(c):
-    sp = [[[float(h[0]), float(h[1])] for h in node] for node in c["nodes"]]
+    # the same path is flattened twice from fresh copies (a document re-plotted in one session): the second result is the one judged,
+    # and the first must not be altered by the second call
+    mk = lambda: [[[float(h[0]), float(h[1])] for h in node] for node in c["nodes"]]
+    sp = mk()
     plot_utils.subdivideCubicPath(sp, float(c["flat"]))
-    return {"out": [[(F(h[0]), F(h[1])) for h in node] for node in sp]}
+    snap = copy.deepcopy(sp)
+    sp2 = mk()
+    plot_utils.subdivideCubicPath(sp2, float(c["flat"]))
+    if sp != snap: sp2 = sp              # the earlier result was changed behind the caller's back: judge what it has become
+    return {"out": [[(F(h[0]), F(h[1])) for h in node] for node in sp2]}
 
 def _node(nd):
     # the implementation receives floats: the model gets exactly those values
